@@ -387,6 +387,11 @@ def mutate_json(rng, j, depth=0):
         d = dict(j)
         k = rng.choice(sorted(d))
         m = rng.random()
+        if isinstance(d.get('.tag'), str) and rng.random() < 0.3:
+            # the verbose form of a union member: a value (of any kind) under the tag name
+            d[d['.tag']] = rng.choice(JSON_ATOMS)
+            if rng.random() < 0.7:
+                return d
         if m < 0.25:
             del d[k]
         elif m < 0.45:
